@@ -42,6 +42,10 @@ THEOREMS = [
     "OllamaVerif.C09.F10abc_repaired_variant",
     "OllamaVerif.C09.pull_success_verified",
     "OllamaVerif.C09.oversized_blob_refused_then_refetched",
+    "OllamaVerif.C09.pullRun_files",
+    "OllamaVerif.C09.pull_preserves_verified_blobs",
+    "OllamaVerif.C09.history_linked_layers_verified",
+    "OllamaVerif.C09.F10d_staged_variant",
     "OllamaVerif.C09.pull_success_verified_partial",
 ]
 OVERLAY = {"server/internal/client/ollama/zz_verif_c09_test.go": "server_internal_client_ollama/zz_verif_c09_test.go"}
